@@ -78,6 +78,26 @@ CLAIMS = {
         "another type, the exact value when it fits and an error when it does not.",
         "Writer-side WriteFloat/WriteBigInt and the text parser parseInt are not under contract yet. math/big is a trusted integer model.",
         "DESIGN.md section 7 C13"),
+    "C15": (
+        "Binary timestamps: timestampLen equals the bytes appendTimestamp appends for every field combination (offset or unknown offset, year, "
+        "the five precisions, fraction digits and coefficient); TruncatedNanoseconds stays within the nanosecond field and is exact at nine "
+        "digits; readVarIntLen decodes offset sign and magnitude exactly; ReadTimestamp consumes exactly the declared length and reads at most "
+        "six fields; tryCreateTimestamp accepts only month 1-12, day 1-31, hour 0-23, minute and second 0-59 and an offset of less than a day "
+        "(provable only because the code compares every field with time.Date's normalisation); the text parser's computeTimezoneKind rejects "
+        "hour offsets of 24 or more and minute offsets of 60 or more and classifies Z, -00:00 and non-zero offsets.",
+        "Not decided: Timestamp.String / ParseTimestamp round trips, Layout selection, fraction rounding (readNsecs and roundFractionalSeconds "
+        "are outside the subset: strconv/time formatting), calendar validity beyond the field ranges (time.Date is an abstract function). "
+        "readNsecs is a trusted thin contract; time.Time getters are trusted ranged functions.",
+        "DESIGN.md section 7 C15"),
+    "C17": (
+        "Every reflect setter in decodeIntTo and decodeFloatTo is preceded by the guard that says the value fits (atcall obligations on "
+        "reflect.Value.SetInt/SetUint/SetFloat: not OverflowInt/OverflowUint/OverflowFloat of the very value stored; the stored integer is the "
+        "Reader's value, unsigned targets only for non-negative values or big integers that fit 64 bits); decodeSymbolTo and decodeStringTo "
+        "never dereference a missing text or value; unsupported target kinds for integers are errors.",
+        "Not decided: null handling in decodeTo, container targets, Decoder.Decode/DecodeTo stream end (ErrNoInput), that the stored Go value "
+        "represents the Ion value for containers. reflect observers are trusted pure functions, setters are not modelled; the Reader is seen "
+        "through an interface contract (pure observers).",
+        "DESIGN.md section 7 C17"),
     "C18": (
         "Frame conditions on shared state, for every function of package ion: it assigns no package-level variable and hands no such variable's "
         "address to a writer; it writes to no object reached from a package-level variable or from a shared symbol table / catalog it received "
